@@ -76,6 +76,9 @@ type JApiCore struct {
 
 	// uniqOperationID used for checking the uniqueness of the OperationId.
 	uniqOperationID map[string]struct{}
+
+	// pathSchemaTypesInCheck are user types being walked by the checks of a Path schema.
+	pathSchemaTypesInCheck map[string]struct{}
 }
 
 type Option func(*JApiCore)
